@@ -80,14 +80,15 @@ enum { R_REMOTE = 0, R_SOURCE, R_TAP, R_PSEUDO };
 
 enum { CL_INFLIGHT, CL_FLUSH_STALL, CL_FLOWDEF_MID, CL_RELEASE_RACE, CL_TWO_PRODUCERS, CL_WLIN, CL_WSINK, CL_WSRC,
        CL_STALLED, CL_SRC_BLOCKED, CL_LONGQ, CL_PREEMPTED, CL_FROZEN_CTRL, CL_EVENTS_FWD, CL_PSEUDO_OUT, CL_DELIVERED8,
-       CL_PROBE_FREEZE, CL_MUTEX, CL_REATTACH, CL_FLUSH, CL_CHAIN2, CL_RELEASE_SRC_FIRST, CL_MAXLEN, CL_REAL_THREAD, CL_APP_FREEZE, CL_REATTACH_OTHER };
+       CL_PROBE_FREEZE, CL_MUTEX, CL_REATTACH, CL_FLUSH, CL_CHAIN2, CL_RELEASE_SRC_FIRST, CL_MAXLEN, CL_REAL_THREAD, CL_APP_FREEZE, CL_REATTACH_OTHER, CL_QSINK_MOVED, CL_QSINK_MOVED_WATCHING };
 static const char *const class_names[] = {
     "inflight_gt_queue_length", "flush_during_stall", "flow_def_change_in_mid_stream", "release_with_undelivered_buffers",
     "two_producers", "topology_wlin", "topology_wsink", "topology_wsrc",
     "qsink_stalled_event", "source_pump_blocked", "queue_length_gt_4", "preempted_inside_a_call", "control_under_freeze",
     "events_forwarded", "pseudo_output_set_and_cleared", "delivered_ge_8",
     "probe_frozen_during_alloc", "xfer_mutex", "upump_mgr_reattached", "flush", "remote_chain_of_2", "source_released_before_sinks",
-    "set_max_length", "real_loop_thread_pthread_transfer", "forwarded_control_inside_application_freeze", "queue_source_moved_to_another_loop", NULL };
+    "set_max_length", "real_loop_thread_pthread_transfer", "forwarded_control_inside_application_freeze", "queue_source_moved_to_another_loop",
+    "queue_sink_moved_to_another_loop_and_back", "queue_sink_moved_while_it_had_watchers", NULL };
 
 struct ctx;
 
@@ -1050,6 +1051,41 @@ static void op_move_qsrc(struct ctx *c)
     end_op(c, "after the queue source moved to another event loop");
 }
 
+/* a queue sink is given another event loop (attach_upump_mgr answered with a new manager), then its own again: each time every
+ * watcher it had must have left the loop it was in -- one left behind would let the old loop enter the pipe */
+static void op_move_qsink(struct ctx *c, int k)
+{
+    if (c->topo > T_Q2 || c->bth != NULL) return;
+    struct upipe *pipe = target_pipe(c, k % c->nsinks);
+    if (pipe == NULL) return;
+    struct upump_mgr *home = c->loop[SA];
+    struct upump_mgr *fresh = fake_upump_mgr_alloc(c->pfx.cfg.pool_depth, c->pfx.cfg.pool_depth);
+    if (fresh == NULL) { INTERNAL("fake_upump_mgr_alloc"); return; }
+    int had = fake_upump_count_opaque(home, pipe);
+    c->loop[SA] = fresh;
+    ARM(c);
+    int err = upipe_attach_upump_mgr(pipe);
+    c->loop[SA] = home;
+    R("  producer %d: attach_upump_mgr answered with a new event loop -> %d (it had %d watcher(s))\n", k % c->nsinks, err, had);
+    c->hash = vp_hash_mix(c->hash, 0x9a + k % c->nsinks);
+    CLS(CL_QSINK_MOVED); if (had) CLS(CL_QSINK_MOVED_WATCHING);
+    int left = fake_upump_count_opaque(home, pipe);
+    if (!c->ret && left != 0)
+        FAIL("thread/watcher-left-in-old-loop", "after queue sink %d was given another event loop, %d of its watchers are still allocated in the old one: the old loop would go on entering the pipe", k % c->nsinks, left);
+    ARM(c);
+    err = upipe_attach_upump_mgr(pipe);
+    R("  producer %d: attach_upump_mgr answered with its own event loop again -> %d\n", k % c->nsinks, err);
+    left = fake_upump_count_opaque(fresh, pipe);
+    if (!c->ret && left != 0)
+        FAIL("thread/watcher-left-in-old-loop", "after queue sink %d was given back its event loop, %d of its watchers are still allocated in the one it has left", k % c->nsinks, left);
+    if (!c->ret) {
+        upump_mgr_vacuum(fresh);
+        if (!urefcount_single(fresh->refcount)) FAIL("audit/loop", "the event loop queue sink %d has left is still referenced", k % c->nsinks);
+        else upump_mgr_release(fresh);
+    }
+    end_op(c, "after a queue sink moved to another event loop and back");
+}
+
 static void op_maxlen(struct ctx *c, int k, unsigned n)
 {
     struct upipe *pipe = target_pipe(c, k % c->nsinks);
@@ -1308,7 +1344,7 @@ static int run(const uint8_t *tape, size_t len, struct vp_report *rep, unsigned 
         case 10: if (c->topo <= T_Q2) op_maxlen(c, a & 1, a >> 1); else op_step(c, SB, a); break;
         case 11: op_release(c, a); break;
         case 12: if (c->topo <= T_Q2) op_pseudo(c, a & 1); else op_step(c, SA, a); break;
-        case 13: if (c->topo <= T_Q2 && (a & 2)) op_move_qsrc(c); else op_attach(c, a & 1); break;
+        case 13: if (c->topo <= T_Q2 && (a & 6) == 2) op_move_qsrc(c); else if (c->topo <= T_Q2 && (a & 6) == 6) op_move_qsink(c, a & 1); else op_attach(c, a & 1); break;
         case 14: {
             uint8_t n = tp_u8(&c->t);
             c->countdown = n < 192 ? 1 + n % 48 : 1 + (n - 192) * 9;
